@@ -1,2 +1,95 @@
-(* C08 statements; proofs in Proofs/. *)
-From BaoV Require Import Model.Fsm Spec.EncSpec.
+(* C08 - the encoders agree with each other and with the specification.  Statements only; proofs in
+   Proofs/Enc*.v.
+     plan_nodes l (Proofs/EncLoop.v)             = the nodes of the parent items of a plan
+     enc_nodes size bs q, stored_ok, stored_ok_fsm: see Props/C02enc.v
+     enc_nodes_raw size bs q (Proofs/EncNonval.v) = plan_nodes (pre_plan size bs 0 q)  (no truncation)
+     groups_full bs q size                        = every chunk group touched by sel q size is fully
+                                                    selected (inside the blob) *)
+From BaoV Require Import Model.Fsm Spec.RangeSpec Spec.PlanSpec Spec.EncSpec Spec.HashAssm.
+From BaoV Require Import Proofs.EncLoop Proofs.EncThm Proofs.EncNonval.
+
+(* the item stream of mixed.rs on an intact store *)
+Theorem C08_mixed_frame : forall (HO : hops) (data : bytes HO) (bs : N) (q : ranges),
+  wf_ranges q = true -> blen HO data <= 2 ^ 63 -> bs <= 10 ->
+  forall ob : outboard HO,
+  ob_tree ob = mkTree (blen HO data) bs -> ob_root ob = root_hash HO data ->
+  beq_correct HO ->
+  (forall nd, In nd (enc_nodes (blen HO data) bs q) -> stored_ok HO data ob nd) ->
+  exists its, traverse_ranges_validated HO data ob q = Some (ESize (blen HO data) :: map EItem its ++ [EDone]) /\
+              concat (map (item_bytes HO) its) = flat HO (honest HO data bs q).
+Proof. exact c08_mixed_frame. Qed.
+Print Assumptions C08_mixed_frame.
+
+(* the three validating loops are the same function of the store: any data, any outboard *)
+Theorem C08_encode_agree : forall (HO : hops) (data' : bytes HO) (ob : outboard HO) (q : ranges),
+  let t := ob_tree ob in
+  (forall nd, In nd (plan_nodes (pre_order_chunks_iter t (truncate_ranges q (tsize t)) 0)) ->
+     load_sync HO ob nd = load_fsm HO ob nd) ->
+  (q <> [] -> encode_ranges_validated HO data' ob q = encode_ranges_validated_fsm HO data' ob q) /\
+  exists its, concat (map (item_bytes HO) its) = snd (encode_ranges_validated HO data' ob q) /\
+    traverse_ranges_validated HO data' ob q =
+    match fst (encode_ranges_validated HO data' ob q) with
+    | Ok _ => Some (ESize (tsize t) :: map EItem its ++ [EDone])
+    | Err e => Some (ESize (tsize t) :: map EItem its ++ [EError e])
+    | Panic => None
+    end.
+Proof. exact c08_encode_agree. Qed.
+Print Assumptions C08_encode_agree.
+
+(* the premise of C08_encode_agree holds for the memory and empty outboards, and for the io-backed ones at
+   every node the sync loader reads without error *)
+Theorem C08_load_agree_mem : forall (HO : hops) (ob : outboard HO) (nd : N),
+  ob_k ob = PreMem \/ ob_k ob = PostMem \/ ob_k ob = EmptyOb -> load_sync HO ob nd = load_fsm HO ob nd.
+Proof. exact load_agree_mem. Qed.
+Print Assumptions C08_load_agree_mem.
+
+Theorem C08_load_agree_io : forall (HO : hops) (ob : outboard HO) (nd : N) (x : option (hash HO * hash HO)),
+  load_sync HO ob nd = Ok x -> load_fsm HO ob nd = Ok x.
+Proof. exact load_agree_io. Qed.
+Print Assumptions C08_load_agree_io.
+
+(* the non-validating encoders on an intact store, when every touched chunk group is fully selected *)
+Theorem C08_nonvalidating_eq_validating : forall (HO : hops) (data : bytes HO) (bs : N) (q : ranges),
+  wf_ranges q = true -> blen HO data <= 2 ^ 63 -> bs <= 10 ->
+  forall ob : outboard HO,
+  ob_tree ob = mkTree (blen HO data) bs ->
+  groups_full bs q (blen HO data) ->
+  (forall nd, In nd (enc_nodes_raw (blen HO data) bs q) -> stored_ok HO data ob nd) ->
+  encode_ranges HO data ob q = (Ok tt, flat HO (honest HO data bs q)).
+Proof. exact c08_nonval_sync. Qed.
+Print Assumptions C08_nonvalidating_eq_validating.
+
+Theorem C08_nonvalidating_eq_validating_fsm : forall (HO : hops) (data : bytes HO) (bs : N) (q : ranges),
+  wf_ranges q = true -> blen HO data <= 2 ^ 63 -> bs <= 10 ->
+  forall ob : outboard HO,
+  ob_tree ob = mkTree (blen HO data) bs ->
+  groups_full bs q (blen HO data) ->
+  (forall nd, In nd (enc_nodes_raw (blen HO data) bs q) -> stored_ok_fsm HO data ob nd) ->
+  encode_ranges_fsm HO data ob q = (Ok tt, flat HO (honest HO data bs q)).
+Proof. exact c08_nonval_fsm. Qed.
+Print Assumptions C08_nonvalidating_eq_validating_fsm.
+
+Theorem C08_groups_full_def : forall bs q size,
+  groups_full bs q size <->
+  (forall c c', sel q size c = true -> c' / 2 ^ bs = c / 2 ^ bs -> c' < nchunks size -> sel q size c' = true).
+Proof. exact groups_full_def. Qed.
+Print Assumptions C08_groups_full_def.
+
+Theorem C08_enc_nodes_raw_def : forall size bs q,
+  enc_nodes_raw size bs q = plan_nodes (pre_plan size bs 0 q).
+Proof. exact enc_nodes_raw_def. Qed.
+Print Assumptions C08_enc_nodes_raw_def.
+
+(* F6: without groups_full the non-validating encoders differ from the honest encoding (and from the
+   validating encoder) on an intact store *)
+Theorem C08_nonvalidating_refuted :
+  exists (HO : hops) (data : bytes HO) (bs : N) (ob : outboard HO) (q : ranges),
+    beq_correct HO /\ wf_ranges q = true /\ q <> [] /\ blen HO data <= 2 ^ 63 /\ bs <= 10 /\
+    ob_tree ob = mkTree (blen HO data) bs /\ ob_root ob = root_hash HO data /\
+    (forall nd, In nd (enc_nodes_raw (blen HO data) bs q) -> stored_ok HO data ob nd) /\
+    (forall nd, In nd (enc_nodes (blen HO data) bs q) -> stored_ok HO data ob nd) /\
+    encode_ranges_validated HO data ob q = (Ok tt, flat HO (honest HO data bs q)) /\
+    length (snd (encode_ranges HO data ob q)) <> length (flat HO (honest HO data bs q)) /\
+    length (snd (encode_ranges_fsm HO data ob q)) <> length (flat HO (honest HO data bs q)).
+Proof. exact c08_nonvalidating_refuted. Qed.
+Print Assumptions C08_nonvalidating_refuted.
